@@ -584,6 +584,12 @@ package router
 //@   ensures [C03:always-a-response] rc.Response.Msg != nil && wfMsg(rc.Response.Msg)
 //@   ensures [C20:response-is-its-own-object] rc.Response.Msg != m && fresh(rc.Response.Msg) && ownSecs(rc.Response.Msg)
 //@   ensures [C09:packable] optSmall(rc.Response.Msg) && smallMsg(rc.Response.Msg)
+// this query, in this request context, goes through the router's rules exactly once (the SERVFAIL fall-back of the
+// deferred function is unreachable under handleReqMsg's contract: it always leaves a response)
+//@   ghost nHM int = 0
+//@   oncall handleReqMsg: nHM = nHM + 1
+//@   callsite handleReqMsg: [C03:this-query-handled-once-by-this-router] nHM == 0 && arg0 == r && arg2 == m && arg3 == rc
+//@   ensures [C03:handled-exactly-once] nHM == 1
 //@   ensures wfMsg(m) && m.Additionals == old(m.Additionals) && m.Answers == old(m.Answers) && m.Authorities == old(m.Authorities) && m.Questions == old(m.Questions)
 
 // ---- listeners: one response write per handled request ------------------------------------------------
